@@ -15,8 +15,8 @@ all samples, 50 per batch; observed by the harness on every generated archive).
 exactly the archive's table, and the cache holds only LZ groups with the reference the archive
 yields for them.
 
-The last section (`archOf_wf`, `written_archive_content`, `reader_answers_input`,
-`reader_answers_input_bytes`, `handle_loader_is_decoder`) instantiates `A` with the content of a file
+The last section (`archOf_wf`, `written_archive_content`, `handle_loader_is_decoder`,
+`planner_answers`, `reader_answers_input(_planned)`, `reader_answers_input_bytes`) instantiates `A` with the content of a file
 that `create` wrote — `ReaderLink.archOf cfg inp dec`, which `written_archive_content` proves to be
 the `Arch` the independent decoder's stages build from the bytes of `Writer.writeArchive` — and
 concludes that every query after every history returns the INPUT's data (`Lemmas/ReaderLink.lean`
@@ -347,58 +347,57 @@ example : segPure (archOfDecoded 3 5 [] #[] #[⟨16, some [0, 1, 2], #[], 1, non
     segPure (archOfDecoded 3 5 [] #[] #[⟨16, some [0, 1, 2], #[], 1, none, []⟩]) ⟨17, 0, true, 3⟩ = .err := by
   rw [handle_loader_is_decoder, handle_loader_is_decoder]; decide
 
-/-- **Any query after any history on an archive that `create` wrote returns the input's data.**
-For every configuration, input and decision vector accepted by `DecisionsOK` (so `k ≥ 1`), inputs
-over the literal codes, a writer that answers (`writeArchive … = some bs`), sample names pairwise
-distinct and contig names distinct inside each sample (`NamesDistinct`, decidable): on the handle
-model over `archOf cfg inp dec`, after ANY sequence `ops` of operations (successful or failed, known
-or unknown names, any interleaving with range / reference / full-table queries),
+/-- The planner answers for every group (`ReaderLink.Planned`) when the writer answers … -/
+theorem planned_of_write (cfg : Writer.Cfg) (inp : List Writer.Sample) (dec : Writer.Decisions)
+    (zc : Nat → List Nat → List Nat) (bs : List Nat) (hw : Writer.writeArchive cfg inp dec zc = some bs) :
+    Planned cfg inp dec :=
+  planned_of_writeArchive cfg inp dec zc bs hw
+
+/-- … and, for well-formed decisions, whenever `min_match_len ≥ HASHING_STEP` (= 4; C09
+`encode_total`), whatever the ZSTD and the sizes — so the theorems below do not depend on the
+physical limits under which `writeArchive` gives up. -/
+theorem planner_answers (cfg : Writer.Cfg) (inp : List Writer.Sample) (dec : Writer.Decisions)
+    (hdec : Writer.DecisionsOK cfg inp dec) (hmm : Ragc.Gen.lzHashingStep ≤ cfg.minMatch) :
+    Planned cfg inp dec :=
+  planned_of_minMatch cfg inp dec (Ragc.WriterLemmas.decOK_of cfg inp dec hdec) hmm
+
+example : Planned Ex.cfg Ex.inp Ex.dec := planner_answers _ _ _ Ex.hyps.1 (by decide)
+
+/-- **Any query after any history on an archive that `create` wrote returns the input's data**
+(general form: `Planned` instead of "the writer answers"). For every configuration, input and
+decision vector accepted by `DecisionsOK` (so `k ≥ 1`), inputs over the literal codes, sample names
+pairwise distinct and contig names distinct inside each sample (`NamesDistinct`, decidable): on the
+handle model over `archOf cfg inp dec`, after ANY sequence `ops` of operations (successful or failed,
+known or unknown names, any interleaving with range / reference / full-table queries),
+`ReaderLink.AnswersInput` holds:
 
 * `list_samples` = the input's sample names in order;
 * for every sample of the input: `list_contigs` = its contig names in order; `get_sample` = all its
-  contigs (name, bases) in order; `get_contig` of each of its contigs = `ok` of exactly that contig's
-  bases; `get_contig` with a name the sample does not have = `err`;
+  contigs (name, bases) in order; `write_sample_fasta` = the FASTA text of these; `get_contig` of each
+  of its contigs = `ok` of exactly that contig's bases; `get_contig` with a name the sample does not
+  have = `err`;
 * for a sample name the input does not have: `list_contigs`, `get_sample`, `get_contig` = `err`.
 
 Never a panic. Composition of `answer_canonical` / `inv_run` (history independence) with
 `ReaderLink.contig_views` (the descriptors of `archOf` load the writer's pieces: C02
 `planGroup_spec`, C09) and `views_of_tiles` (C07 `reconstruct_eq_full`, C10 tiling). -/
-theorem reader_answers_input (cfg : Writer.Cfg) (inp : List Writer.Sample) (dec : Writer.Decisions)
-    (zc : Nat → List Nat → List Nat) (bs : List Nat)
-    (hdec : Writer.DecisionsOK cfg inp dec) (hcodes : Writer.codesOK inp)
-    (hw : Writer.writeArchive cfg inp dec zc = some bs) (hnd : NamesDistinct inp) (ops : List Op) :
-    (step (archOf cfg inp dec) (run (archOf cfg inp dec) (fresh (archOf cfg inp dec)) ops).1 .listSamples).2
-      = .ok (.names (inp.map (·.name))) ∧
-    (∀ smp ∈ inp,
-      (step (archOf cfg inp dec) (run (archOf cfg inp dec) (fresh (archOf cfg inp dec)) ops).1
-          (.listContigs smp.name)).2 = .ok (.names (smp.contigs.map (·.name))) ∧
-      (step (archOf cfg inp dec) (run (archOf cfg inp dec) (fresh (archOf cfg inp dec)) ops).1
-          (.getSample smp.name)).2 = .ok (.sample (smp.contigs.map fun c => (c.name, c.data))) ∧
-      (∀ ctg ∈ smp.contigs,
-        (step (archOf cfg inp dec) (run (archOf cfg inp dec) (fresh (archOf cfg inp dec)) ops).1
-          (.getContig smp.name ctg.name)).2 = .ok (.bases ctg.data)) ∧
-      (∀ c, c ∉ smp.contigs.map (·.name) →
-        (step (archOf cfg inp dec) (run (archOf cfg inp dec) (fresh (archOf cfg inp dec)) ops).1
-          (.getContig smp.name c)).2 = .err)) ∧
-    (∀ s, s ∉ inp.map (·.name) →
-      (step (archOf cfg inp dec) (run (archOf cfg inp dec) (fresh (archOf cfg inp dec)) ops).1
-          (.listContigs s)).2 = .err ∧
-      (step (archOf cfg inp dec) (run (archOf cfg inp dec) (fresh (archOf cfg inp dec)) ops).1
-          (.getSample s)).2 = .err ∧
-      ∀ c, (step (archOf cfg inp dec) (run (archOf cfg inp dec) (fresh (archOf cfg inp dec)) ops).1
-          (.getContig s c)).2 = .err) := by
+theorem reader_answers_input_planned (cfg : Writer.Cfg) (inp : List Writer.Sample) (dec : Writer.Decisions)
+    (hdec : Writer.DecisionsOK cfg inp dec) (hcodes : Writer.codesOK inp) (hpl : Planned cfg inp dec)
+    (hnd : NamesDistinct inp) (ops : List Op) :
+    AnswersInput (archOf cfg inp dec) inp (run (archOf cfg inp dec) (fresh (archOf cfg inp dec)) ops).1 := by
   have hok := Ragc.WriterLemmas.decOK_of cfg inp dec hdec
-  have hpl := planned_of_writeArchive cfg inp dec zc bs hw
   have hwf := archOf_wf cfg inp dec hdec
   have hinv := inv_run (archOf cfg inp dec) hwf ops _ (inv_fresh _)
   refine ⟨?_, ?_, ?_⟩
   · rw [answer_canonical _ hwf _ _ hinv]; rfl
   · intro smp hs
-    refine ⟨?_, ?_, ?_, ?_⟩
+    refine ⟨?_, ?_, ?_, ?_, ?_⟩
     · rw [answer_canonical _ hwf _ _ hinv]
       exact answer_listContigs_written cfg inp dec hok hnd smp hs
     · rw [answer_canonical _ hwf _ _ hinv]
       exact answer_getSample_written cfg inp dec hok hcodes hpl hnd smp hs
+    · rw [answer_canonical _ hwf _ _ hinv]
+      exact answer_writeFasta_written cfg inp dec hok hcodes hpl hnd smp hs
     · intro ctg hc
       rw [answer_canonical _ hwf _ _ hinv]
       exact answer_getContig_written cfg inp dec hok hcodes hpl hnd smp hs ctg hc
@@ -413,10 +412,8 @@ theorem reader_answers_input (cfg : Writer.Cfg) (inp : List Writer.Sample) (dec 
     · intro c
       exact unknown_is_error _ hwf _ (.getContig s c) hinv (Or.inl hu) (by simp [EarlyRange])
 
--- Non-vacuity on the input of `read_write`'s example: the hypotheses hold (`Ex.hyps`, by `decide`),
--- the writer answers (closed evaluation of the executable model by `decide +kernel`, as in
--- `Props.C01`: not a step of any theorem), and after the history `Ex.hist` the answers are the input's.
-set_option maxRecDepth 100000 in
+-- Non-vacuity on the input of `read_write`'s example: the hypotheses hold (`Ex.hyps`, by `decide`;
+-- `min_match_len = 10 ≥ 4`), and after the history `Ex.hist` the answers are the input's.
 example :
     let A := archOf Ex.cfg Ex.inp Ex.dec
     let st := (run A (fresh A) Ex.hist).1
@@ -426,45 +423,83 @@ example :
     (step A st (.getSample [65])).2
       = .ok (.sample [([99], [0, 1, 2, 3, 0, 1, 2, 3, 0, 1]), ([100], [2, 4, 1])]) ∧
     (step A st (.getContig [65] [120])).2 = .err ∧ (step A st (.getSample [90])).2 = .err := by
-  have hsome : (Writer.writeArchive Ex.cfg Ex.inp Ex.dec Ex.zc).isSome = true := by decide +kernel
-  obtain ⟨bs, hbs⟩ := Option.isSome_iff_exists.mp hsome
-  obtain ⟨h1, h2, h3⟩ := reader_answers_input Ex.cfg Ex.inp Ex.dec Ex.zc bs Ex.hyps.1 Ex.hyps.2.1 hbs
-    Ex.hyps.2.2.1 Ex.hist
-  obtain ⟨a1, a2, a3, a4⟩ := h2 ⟨[65], [⟨[99], [0, 1, 2, 3, 0, 1, 2, 3, 0, 1]⟩, ⟨[100], [2, 4, 1]⟩]⟩ (by decide)
-  obtain ⟨_, _, b3, _⟩ := h2 ⟨[66], [⟨[99], [0, 1, 2, 2, 0, 1, 2, 3, 0, 1]⟩]⟩ (by decide)
+  obtain ⟨h1, h2, h3⟩ := reader_answers_input_planned Ex.cfg Ex.inp Ex.dec Ex.hyps.1 Ex.hyps.2.1
+    (planner_answers _ _ _ Ex.hyps.1 (by decide)) Ex.hyps.2.2.1 Ex.hist
+  obtain ⟨a1, a2, _, a3, a4⟩ := h2 ⟨[65], [⟨[99], [0, 1, 2, 3, 0, 1, 2, 3, 0, 1]⟩, ⟨[100], [2, 4, 1]⟩]⟩ (by decide)
+  obtain ⟨_, _, _, b3, _⟩ := h2 ⟨[66], [⟨[99], [0, 1, 2, 2, 0, 1, 2, 3, 0, 1]⟩]⟩ (by decide)
   exact ⟨h1, a1, b3 ⟨[99], [0, 1, 2, 2, 0, 1, 2, 3, 0, 1]⟩ (by decide), a2, a4 [120] (by decide),
     (h3 [90] (by decide)).2.1⟩
 
-/-- **The same for the `Arch` read from the bytes.** Under the hypotheses of `read_write` (ZSTD facts
-included) and `NamesDistinct`: for `bs = writeArchive cfg inp dec zc` the decoder's stages return
-tables `tables`, `gds` such that on the handle model over `archOfDecoded cfg.k cfg.minMatch names
-tables gds` — the content of the FILE — every query after every history answers as
-`reader_answers_input` says (stated for `get_contig` and `get_sample`; the other clauses transfer the
-same way since the two `Arch` values are equal). -/
+/-- **`reader_answers_input`, under the hypotheses of `Props.C01.read_write`'s writer side**
+(`DecisionsOK`, `codesOK`, the writer answers) and `NamesDistinct`: after any history `ops`, every
+query on the handle model over `archOf cfg inp dec` returns the input's data (`AnswersInput`, clauses
+listed at `reader_answers_input_planned`). The two ZSTD facts are not needed at this level (`archOf`
+is defined from the writer's plan); they enter in `written_archive_content` /
+`reader_answers_input_bytes`, which tie `archOf` to the bytes. -/
+theorem reader_answers_input (cfg : Writer.Cfg) (inp : List Writer.Sample) (dec : Writer.Decisions)
+    (zc : Nat → List Nat → List Nat) (bs : List Nat)
+    (hdec : Writer.DecisionsOK cfg inp dec) (hcodes : Writer.codesOK inp)
+    (hw : Writer.writeArchive cfg inp dec zc = some bs) (hnd : NamesDistinct inp) (ops : List Op) :
+    AnswersInput (archOf cfg inp dec) inp (run (archOf cfg inp dec) (fresh (archOf cfg inp dec)) ops).1 :=
+  reader_answers_input_planned cfg inp dec hdec hcodes (planned_of_write cfg inp dec zc bs hw) hnd ops
+
+-- Non-vacuity of "the writer answers" on the same input: closed evaluation of the executable model
+-- by `decide +kernel`, as in `Props.C01` (not a step of any theorem).
+set_option maxRecDepth 100000 in
+example : ∃ bs, Writer.writeArchive Ex.cfg Ex.inp Ex.dec Ex.zc = some bs ∧
+    AnswersInput (archOf Ex.cfg Ex.inp Ex.dec) Ex.inp
+      (run (archOf Ex.cfg Ex.inp Ex.dec) (fresh (archOf Ex.cfg Ex.inp Ex.dec)) Ex.hist).1 := by
+  have hsome : (Writer.writeArchive Ex.cfg Ex.inp Ex.dec Ex.zc).isSome = true := by decide +kernel
+  obtain ⟨bs, hbs⟩ := Option.isSome_iff_exists.mp hsome
+  exact ⟨bs, hbs, reader_answers_input _ _ _ _ bs Ex.hyps.1 Ex.hyps.2.1 hbs Ex.hyps.2.2.1 _⟩
+
+/-- **Other readers on a written archive.** A program that starts with one freshly opened handle on
+an archive `create` wrote, clones handles (`clone_for_thread`) and runs operations on them in ANY
+interleaving: every `get_contig` of a contig of the input, on whichever handle and after whatever
+happened on it and on the others, returns exactly that contig's bases. (`clones_independent` on
+`archOf`.) -/
+theorem clones_answer_input (cfg : Writer.Cfg) (inp : List Writer.Sample) (dec : Writer.Decisions)
+    (hdec : Writer.DecisionsOK cfg inp dec) (hcodes : Writer.codesOK inp) (hpl : Planned cfg inp dec)
+    (hnd : NamesDistinct inp) (acts : List SysOp) (h : Nat) (smp : Writer.Sample) (hs : smp ∈ inp)
+    (ctg : Writer.Contig) (hc : ctg ∈ smp.contigs) (res : Result)
+    (hm : (some res, SysOp.on h (.getContig smp.name ctg.name))
+      ∈ (sysRun (archOf cfg inp dec) [fresh (archOf cfg inp dec)] acts).2.zip acts) :
+    res = .ok (.bases ctg.data) := by
+  have hok := Ragc.WriterLemmas.decOK_of cfg inp dec hdec
+  rw [← answer_getContig_written cfg inp dec hok hcodes hpl hnd smp hs ctg hc]
+  exact clones_independent _ (archOf_wf cfg inp dec hdec) acts _ hm res rfl
+
+-- a clone of the first handle answers `get_contig` with the input's bases
+example : (step (archOf Ex.cfg Ex.inp Ex.dec) (fresh (archOf Ex.cfg Ex.inp Ex.dec)) (.getContig [66] [99])).2
+    = .ok (.bases [0, 1, 2, 2, 0, 1, 2, 3, 0, 1]) :=
+  clones_answer_input Ex.cfg Ex.inp Ex.dec Ex.hyps.1 Ex.hyps.2.1 (planner_answers _ _ _ Ex.hyps.1 (by decide))
+    Ex.hyps.2.2.1 [.clone 0, .on 1 (.getContig [66] [99])] 1
+    ⟨[66], [⟨[99], [0, 1, 2, 2, 0, 1, 2, 3, 0, 1]⟩]⟩ (by decide) ⟨[99], [0, 1, 2, 2, 0, 1, 2, 3, 0, 1]⟩ (by decide) _
+    (List.mem_cons_of_mem _ List.mem_cons_self)
+
+/-- **The same for the `Arch` read from the bytes** — the end-to-end statement. Under ALL the
+hypotheses of `read_write` (`DecisionsOK`, the two ZSTD facts, `codesOK`, the writer answers) and
+`NamesDistinct`: for `bs = writeArchive cfg inp dec zc` the independent decoder's stages succeed and
+return `tables`, `gds` such that on the handle model over `archOfDecoded cfg.k cfg.minMatch names
+tables gds` — the content of the FILE — after every history every query returns the input's data
+(`AnswersInput`). -/
 theorem reader_answers_input_bytes (cfg : Writer.Cfg) (inp : List Writer.Sample) (dec : Writer.Decisions)
     (zc : Nat → List Nat → List Nat) (zd : List Nat → Option (List Nat)) (bs : List Nat)
     (hdec : Writer.DecisionsOK cfg inp dec) (hz : ∀ l x, zd (zc l x) = some x)
     (hne : ∀ l x, zc l x = [] → x = []) (hcodes : Writer.codesOK inp)
     (hw : Writer.writeArchive cfg inp dec zc = some bs) (hnd : NamesDistinct inp) :
     ∃ o tables nB gds, Agc3.openArchive bs = .ok o ∧
+      Agc3.readParams o {} = .ok ({}, cfg.k, cfg.minMatch, cfg.segSize) ∧
       Agc3.decodeCatalogue zd o cfg.k cfg.segSize {} = .ok ({}, inp.map (·.name), tables, nB) ∧
       Agc3.decodeGroups zd o {} = .ok ({}, gds) ∧
-      ∀ (ops : List Op), ∀ smp ∈ inp,
-        (step (archOfDecoded cfg.k cfg.minMatch (inp.map (·.name)) tables gds)
+      ∀ (ops : List Op),
+        AnswersInput (archOfDecoded cfg.k cfg.minMatch (inp.map (·.name)) tables gds) inp
           (run (archOfDecoded cfg.k cfg.minMatch (inp.map (·.name)) tables gds)
-            (fresh (archOfDecoded cfg.k cfg.minMatch (inp.map (·.name)) tables gds)) ops).1
-          (.getSample smp.name)).2 = .ok (.sample (smp.contigs.map fun c => (c.name, c.data))) ∧
-        ∀ ctg ∈ smp.contigs,
-          (step (archOfDecoded cfg.k cfg.minMatch (inp.map (·.name)) tables gds)
-            (run (archOfDecoded cfg.k cfg.minMatch (inp.map (·.name)) tables gds)
-              (fresh (archOfDecoded cfg.k cfg.minMatch (inp.map (·.name)) tables gds)) ops).1
-            (.getContig smp.name ctg.name)).2 = .ok (.bases ctg.data) := by
-  obtain ⟨o, tables, nB, gds, h1, _, h3, h4, h5⟩ := written_arch cfg inp dec zc zd bs hdec hz hne hcodes hw {}
-  refine ⟨o, tables, nB, gds, h1, h3, h4, ?_⟩
+            (fresh (archOfDecoded cfg.k cfg.minMatch (inp.map (·.name)) tables gds)) ops).1 := by
+  obtain ⟨o, tables, nB, gds, h1, h2, h3, h4, h5⟩ := written_arch cfg inp dec zc zd bs hdec hz hne hcodes hw {}
+  refine ⟨o, tables, nB, gds, h1, h2, h3, h4, ?_⟩
   rw [h5]
-  intro ops smp hs
-  obtain ⟨_, h, _⟩ := reader_answers_input cfg inp dec zc bs hdec hcodes hw hnd ops
-  exact ⟨(h smp hs).2.1, (h smp hs).2.2.1⟩
+  exact reader_answers_input cfg inp dec zc bs hdec hcodes hw hnd
 
 example : (∀ l x, Ex.zd (Ex.zc l x) = some x) ∧ (∀ l x, Ex.zc l x = [] → x = []) ∧
     Writer.DecisionsOK Ex.cfg Ex.inp Ex.dec ∧ Writer.codesOK Ex.inp ∧ NamesDistinct Ex.inp :=
